@@ -50,7 +50,7 @@ Sound(o) == o.d = o.a \o ":" \o o.h
 
 (* ---- O1: the archive is a well formed OCI layout ----------------------- *)
 (* S = [objs, edges, top, tag, single]   T = [names, types, alg, hex, calc, sha,
-   layoutN, layoutV, indexN, idigs, irefs, dockN, dcfg, dlayers, dtags]
+   layoutN, layoutV, indexN, idigs, irefs, dockN, dcfg, dlayers, dtags, dforms]
    alg[i]/hex[i] = "" unless names[i] is blobs/<alg>/<hex>; calc[i] = <alg>-hash of the content;
    sha[i] = sha256 of the content of every regular file. *)
 Files(T) == {i \in 1..Len(T.names) : T.types[i] = "file"}
@@ -70,7 +70,12 @@ DockerOK(S, T) ==
   /\ Len(T.dlayers) = Cardinality(Role(S, S.top, "layer"))
   /\ \A k \in 1..Len(T.dlayers) :
         \E i \in EntryOf(T, T.dlayers[k]) : Holds(T, i, LayerSeq(S, S.top)[k])
+\* every RepoTags entry is a plain name:tag (no digest: docker load refuses a canonical reference, and an
+\* import by name does not find it) and names the tag the image is exported under (dforms[k]: syntactic class of
+\* the entry, "nametag" | "digest" | "invalid"; dtags[k]: its tag part)
+RepoTagsOK(S, T) ==
   /\ Len(T.dtags) >= 1
+  /\ \A k \in 1..Len(T.dtags) : T.dforms[k] = "nametag"
   /\ S.tag # "" => \A k \in 1..Len(T.dtags) : T.dtags[k] = S.tag
 
 O1(S, T) == First(<<
@@ -82,7 +87,8 @@ O1(S, T) == First(<<
   <<\E i \in BlobIdx(T) : T.calc[i] # T.hex[i], "O1-digest: an entry under a digest name has other content">>,
   <<\E i, j \in Files(T) : i # j /\ T.names[i] = T.names[j], "O1-once: an entry is written more than once">>,
   <<\E d \in Closure(S.edges, S.top) : d \notin ArchiveDigs(T), "O1-complete: content of the image is missing from the archive">>,
-  <<S.single /\ ~DockerOK(S, T), "O1-docker: single image without a Docker-loadable manifest.json">> >>)
+  <<S.single /\ ~DockerOK(S, T), "O1-docker: single image without a Docker-loadable manifest.json">>,
+  <<S.single /\ ~RepoTagsOK(S, T), "O1-repotags: RepoTags of manifest.json is not a plain name:tag naming the exported tag">> >>)
 
 (* ---- O2: the import reproduces the image ------------------------------- *)
 (* I = [ok, objs, top, want]  (want = the digest the import was asked to bring over) *)
